@@ -147,12 +147,16 @@ def evaluate__datetime_stamp_type(self: XPathConstructor, context: ta.ContextTyp
     if arg is None:
         return []
 
-    if isinstance(arg, UntypedAtomic):
-        result = self.cast(arg.value)
-    elif isinstance(arg, Date):
-        result = self.cast(arg)
-    else:
-        result = self.cast(str(arg))
+    try:
+        if isinstance(arg, UntypedAtomic):
+            result = self.cast(arg.value)
+        else:
+            result = self.cast(arg)
+    except TypeError as err:
+        if isinstance(context, XPathSchemaContext):
+            return []
+        raise self.error('FORG0006', err) from None
+
     assert isinstance(result, DateTimeStamp)
     return result
 
